@@ -495,11 +495,52 @@ const (
 	maxSigmaNs = int64(1) << 62
 )
 
+var binade = rapid.Float64Range(1, math.Nextafter(2, 1))
+
+// unit draws from [0,1) without rapid's bias toward small values: inside one
+// binade ([1,2)) rapid draws the significand uniformly, except that it returns
+// the lower end itself with probability 1/9; that atom is redrawn.
+func unit(t *rapid.T, label string) float64 {
+	for i := 0; i < 6; i++ {
+		if x := binade.Draw(t, label); x != 1 {
+			return x - 1
+		}
+	}
+	return 0
+}
+
+// choose picks an index with the given relative weights.
+func choose(t *rapid.T, label string, weights ...float64) int {
+	total := 0.0
+	for _, w := range weights {
+		total += w
+	}
+	x := unit(t, label) * total
+	for i, w := range weights {
+		if x < w {
+			return i
+		}
+		x -= w
+	}
+	return len(weights) - 1
+}
+
+func uniformInt64(t *rapid.T, lo, hi int64, label string) int64 {
+	if lo >= hi {
+		return lo
+	}
+	v := lo + int64(unit(t, label)*(float64(hi)-float64(lo)+1))
+	if v > hi {
+		v = hi
+	}
+	return v
+}
+
 func logInt64(t *rapid.T, lo, hi int64, label string) int64 {
 	if lo >= hi {
 		return lo
 	}
-	x := rapid.Float64Range(math.Log(float64(lo)), math.Log(float64(hi))).Draw(t, label)
+	x := math.Log(float64(lo)) + unit(t, label)*(math.Log(float64(hi))-math.Log(float64(lo)))
 	v := int64(math.Round(math.Exp(x)))
 	if v < lo {
 		v = lo
@@ -518,18 +559,19 @@ var niceWeights = []float64{0, 0, 0.5, 1, 1, 1.5, 2, 3, 10}
 // genCase draws N from [1, maxN]; N == 1 is returned as is (the caller excludes and counts it).
 func genCase(t *rapid.T) gcase {
 	var c gcase
-	if rapid.IntRange(0, 2).Draw(t, "tickNice") == 0 {
-		c.F = rapid.SampledFrom(niceTicks).Draw(t, "tick")
+	if choose(t, "tickShape", 1, 2) == 0 {
+		c.F = niceTicks[uniformInt64(t, 0, int64(len(niceTicks)-1), "tickNice")]
 	} else {
 		c.F = time.Duration(logInt64(t, int64(minTick), int64(maxTick), "tickLog"))
 	}
-	switch rapid.IntRange(0, 9).Draw(t, "nShape") {
+	switch choose(t, "nShape", 12, 12, 10, 66) {
 	case 0:
-		c.N = rapid.IntRange(1, 12).Draw(t, "nTiny")
-	case 1, 2:
-		c.N = rapid.IntRange(2, 100).Draw(t, "nSmall")
-	case 3:
-		c.N = rapid.SampledFrom([]int{2, 3, 24, 60, 100, 360, 1440, 3600, 10000, maxN}).Draw(t, "nNice")
+		c.N = int(uniformInt64(t, 1, 12, "nTiny"))
+	case 1:
+		c.N = int(uniformInt64(t, 2, 100, "nSmall"))
+	case 2:
+		nice := []int{2, 3, 24, 60, 100, 360, 1440, 3600, 10000, maxN}
+		c.N = nice[uniformInt64(t, 0, int64(len(nice)-1), "nNice")]
 	default:
 		c.N = int(logInt64(t, 2, maxN, "nLog"))
 	}
@@ -539,33 +581,31 @@ func genCase(t *rapid.T) gcase {
 	R := c.R()
 	f := int64(c.F)
 
-	// a shape that keeps the bell well inside the window (tight bound) vs free placement
-	inside := rapid.IntRange(0, 9).Draw(t, "bell") < 4 && c.N >= 80
-	switch {
-	case inside:
-		c.Peak = time.Duration(rapid.Int64Range(int64(R)/4, 3*int64(R)/4).Draw(t, "peakInside"))
+	// a bell that sits well inside the window (tight bound) vs free placement
+	if c.N >= 80 && choose(t, "bell", 45, 55) == 0 {
+		c.Peak = time.Duration(uniformInt64(t, int64(R)/4, 3*int64(R)/4, "peakInside"))
 		c.Sigma = time.Duration(logInt64(t, 5*f, int64(R)/16, "sigmaInside"))
-	default:
-		switch rapid.IntRange(0, 6).Draw(t, "peakShape") {
+	} else {
+		switch choose(t, "peakShape", 1, 1, 1, 1, 4) {
 		case 0:
 			c.Peak = 0
 		case 1:
-			c.Peak = time.Duration(rapid.Int64Range(0, int64(c.N-1)).Draw(t, "peakTick") * f)
+			c.Peak = time.Duration(uniformInt64(t, 0, int64(c.N-1), "peakTick") * f)
 		case 2:
-			c.Peak = time.Duration(rapid.Int64Range(0, int64(c.N-1)).Draw(t, "peakHalfTick")*f + f/2)
+			c.Peak = time.Duration(uniformInt64(t, 0, int64(c.N-1), "peakHalfTick")*f + f/2)
 		case 3:
-			c.Peak = R - time.Duration(rapid.Int64Range(1, f).Draw(t, "peakFromEnd"))
+			c.Peak = R - time.Duration(uniformInt64(t, 1, f, "peakFromEnd"))
 		default:
-			c.Peak = time.Duration(rapid.Int64Range(0, int64(R)-1).Draw(t, "peak"))
+			c.Peak = time.Duration(uniformInt64(t, 0, int64(R)-1, "peak"))
 		}
 		hi50 := 50 * int64(R)
-		switch rapid.IntRange(0, 9).Draw(t, "sigmaShape") {
+		switch choose(t, "sigmaShape", 1, 1, 1.5, 1, 5.5) {
 		case 0:
 			c.Sigma = c.F
 		case 1:
-			c.Sigma = time.Duration(rapid.Int64Range(f, 10*f).Draw(t, "sigmaFewTicks"))
+			c.Sigma = time.Duration(uniformInt64(t, f, 10*f, "sigmaFewTicks"))
 		case 2:
-			c.Sigma = time.Duration(rapid.Int64Range(int64(R), hi50).Draw(t, "sigmaWide"))
+			c.Sigma = time.Duration(uniformInt64(t, int64(R), hi50, "sigmaWide"))
 		case 3:
 			hi := maxSigmaNs
 			if int64(R) < hi/1000 {
@@ -577,49 +617,49 @@ func genCase(t *rapid.T) gcase {
 		}
 	}
 
-	switch rapid.IntRange(0, 9).Draw(t, "volumeShape") {
+	switch choose(t, "volumeShape", 0.5, 1, 3.5, 1.5, 1, 2.5) {
 	case 0:
 		c.Volume = 1
 	case 1:
-		c.Volume = float64(rapid.IntRange(1, 50).Draw(t, "volumeSmall"))
-	case 2, 3, 4:
-		c.Volume = math.Max(1, math.Round(float64(c.N)*rapid.Float64Range(0.25, 50).Draw(t, "volumePerTick")))
-	case 5:
-		c.Volume = math.Max(1, float64(c.N)*rapid.Float64Range(0.25, 50).Draw(t, "volumePerTickFractional"))
-	case 6:
-		c.Volume = rapid.Float64Range(1, 1e6).Draw(t, "volumeFractional")
+		c.Volume = float64(uniformInt64(t, 1, 50, "volumeSmall"))
+	case 2:
+		c.Volume = math.Max(1, math.Round(float64(c.N)*(0.25+49.75*unit(t, "volumePerTick"))))
+	case 3:
+		c.Volume = math.Max(1, float64(c.N)*(0.25+49.75*unit(t, "volumePerTickFractional")))
+	case 4:
+		c.Volume = 1 + 999999*unit(t, "volumeFractional")
 	default:
 		c.Volume = float64(logInt64(t, 1, 1_000_000_000, "volumeLog"))
 	}
 
-	if rapid.IntRange(0, 9).Draw(t, "weighted") >= 4 {
-		n := rapid.IntRange(1, 7).Draw(t, "weightCount")
+	if choose(t, "weighted", 4, 6) == 1 {
+		n := int(uniformInt64(t, 1, 7, "weightCount"))
 		c.Weights = make([]float64, n)
 		sum := 0.0
 		for i := range c.Weights {
-			if rapid.IntRange(0, 3).Draw(t, "weightNice") > 0 {
-				c.Weights[i] = rapid.SampledFrom(niceWeights).Draw(t, "weight")
+			if choose(t, "weightShape", 3, 1) == 0 {
+				c.Weights[i] = niceWeights[uniformInt64(t, 0, int64(len(niceWeights)-1), "weight")]
 			} else {
-				c.Weights[i] = math.Round(rapid.Float64Range(0, 8).Draw(t, "weightFloat")*1000) / 1000
+				c.Weights[i] = math.Round(unit(t, "weightFloat")*8000) / 1000
 			}
 			sum += c.Weights[i]
 		}
 		if sum == 0 {
-			c.Weights[rapid.IntRange(0, n-1).Draw(t, "weightPositiveAt")] = rapid.SampledFrom([]float64{0.25, 1, 4}).Draw(t, "weightPositive")
+			c.Weights[uniformInt64(t, 0, int64(n-1), "weightPositiveAt")] = []float64{0.25, 1, 4}[uniformInt64(t, 0, 2, "weightPositive")]
 		}
-		c.Start = rapid.IntRange(0, n-1).Draw(t, "start")
+		c.Start = int(uniformInt64(t, 0, int64(n-1), "start"))
 	}
 	c.Windows = len(c.Weights) + 1
 	if c.Windows < 2 {
 		c.Windows = 2
 	}
-	if extra := rapid.IntRange(0, 2).Draw(t, "extraWindows"); (c.Windows+extra)*c.N <= maxTicks {
+	if extra := int(uniformInt64(t, 0, 2, "extraWindows")); (c.Windows+extra)*c.N <= maxTicks {
 		c.Windows += extra
 	}
-	c.BaseUnix = rapid.Int64Range(0, 4_000_000_000).Draw(t, "base")
-	c.Entry = rapid.SampledFrom([]string{"calculator", "rates"}).Draw(t, "entry")
-	if rapid.IntRange(0, 4).Draw(t, "zoned") == 0 {
-		c.Zone = rapid.SampledFrom([]int{3600, -5 * 3600, 19800, 45 * 60 * 13}).Draw(t, "zone")
+	c.BaseUnix = uniformInt64(t, 0, 4_000_000_000, "base")
+	c.Entry = []string{"calculator", "rates"}[choose(t, "entry", 1, 1)]
+	if choose(t, "zoned", 4, 1) == 1 {
+		c.Zone = []int{3600, -5 * 3600, 19800, 45 * 60 * 13}[uniformInt64(t, 0, 3, "zone")]
 	}
 	return c
 }
@@ -727,26 +767,27 @@ func probeN1(c gcase) (res n1result) {
 
 func genN1(t *rapid.T) gcase {
 	c := gcase{N: 1}
-	if rapid.Bool().Draw(t, "tickNice") {
-		c.F = rapid.SampledFrom(niceTicks).Draw(t, "tick")
+	if choose(t, "tickShape", 1, 1) == 0 {
+		c.F = niceTicks[uniformInt64(t, 0, int64(len(niceTicks)-1), "tickNice")]
 	} else {
 		c.F = time.Duration(logInt64(t, int64(minTick), int64(maxTick), "tickLog"))
 	}
 	f := int64(c.F)
-	c.Peak = time.Duration(rapid.OneOf(rapid.Just(int64(0)), rapid.Int64Range(0, f-1)).Draw(t, "peak"))
-	c.Sigma = time.Duration(rapid.OneOf(rapid.Just(f), logInt64Gen(f, 50*f)).Draw(t, "sigma"))
+	if choose(t, "peakShape", 1, 3) == 1 {
+		c.Peak = time.Duration(uniformInt64(t, 0, f-1, "peak"))
+	}
+	c.Sigma = c.F
+	if choose(t, "sigmaShape", 1, 3) == 1 {
+		c.Sigma = time.Duration(logInt64(t, f, 50*f, "sigma"))
+	}
 	c.Volume = float64(logInt64(t, 1, 1_000_000_000, "volume"))
-	if rapid.Bool().Draw(t, "weighted") {
-		c.Weights = rapid.SampledFrom([][]float64{{1}, {1, 2}, {0, 1}, {2, 1, 0}}).Draw(t, "weights")
+	if choose(t, "weighted", 1, 1) == 1 {
+		c.Weights = [][]float64{{1}, {1, 2}, {0, 1}, {2, 1, 0}}[uniformInt64(t, 0, 3, "weights")]
 	}
 	c.Windows = len(c.Weights) + 2
-	c.BaseUnix = rapid.Int64Range(0, 4_000_000_000).Draw(t, "base")
-	c.Entry = rapid.SampledFrom([]string{"calculator", "rates"}).Draw(t, "entry")
+	c.BaseUnix = uniformInt64(t, 0, 4_000_000_000, "base")
+	c.Entry = []string{"calculator", "rates"}[choose(t, "entry", 1, 1)]
 	return c
-}
-
-func logInt64Gen(lo, hi int64) *rapid.Generator[int64] {
-	return rapid.Custom(func(t *rapid.T) int64 { return logInt64(t, lo, hi, "log") })
 }
 
 func TestProp_SingleTickWindow(t *testing.T) {
@@ -818,5 +859,26 @@ func TestRegress(t *testing.T) {
 		if violation != "" {
 			t.Errorf("VERIF-VIOLATION C11: %s", violation)
 		}
+	}
+}
+
+// TestRegress_SingleTickWindow: shrunk failure of TestProp_SingleTickWindow (F6):
+// iteration-frequency == repeat, every tick requests MinInt64.
+func TestRegress_SingleTickWindow(t *testing.T) {
+	day := 24 * time.Hour
+	for _, c := range []gcase{
+		{F: time.Second, N: 1, Peak: 0, Sigma: time.Second, Volume: 1, Windows: 2, BaseUnix: 1_790_000_000, Entry: "calculator"},
+		{F: day, N: 1, Peak: 14 * time.Hour, Sigma: 150 * time.Minute * 10, Volume: 86400, Windows: 2, BaseUnix: 1_790_000_000, Entry: "rates"},
+	} {
+		res := probeN1(c)
+		stats.Case("regress", c.key(), false, []string{"single-tick"}, func() any { return c })
+		if res.message == "" {
+			continue
+		}
+		if vlib.KnownOpen(knownN1) {
+			vlib.ReportKnown(knownN1)
+			continue
+		}
+		t.Errorf("VERIF-VIOLATION C11: %s", res.message)
 	}
 }
